@@ -250,6 +250,12 @@ class ObjectTemplate(base.HyperValue, utils.Formattable):
       assert self.is_constant
       value = self._value
       copied = False
+      if isinstance(value, symbolic.Symbolic):
+        # A symbolic constant is handed out as a copy: the decoded value
+        # belongs to the caller, who may modify it (so may the derived-value
+        # pass below), while the template keeps its own.
+        value = symbolic.clone(value, deep=True)
+        copied = True
 
     # Compute derived values if needed.
     if self._compute_derived:
